@@ -348,7 +348,7 @@ Proof.
   assert (EV : V.C07.Valid.eph_valid c) by (unfold V.C07.Valid.eph_valid; now rewrite (k_eph _ _ _ K)).
   pose proof (V.C07.Valid.change_valid_holds _ _ _ H RP EV) as CVd.
   pose proof (shape_fee_agree n x c b rt K ND DM NE hd RO) as SF. fold r shape_fee in SF.
-  pose proof (balance_agree n x c b rt K NE CO) as BA. fold r in BA.
+  pose proof (balance_agree n x c b rt K DM NE CO) as BA. fold r in BA.
   destruct (run_ops_hdr _ _ RO) as (_ & _ & F).
   pose proof (value_balance_exact _ _ F VB) as VE. rewrite BA in VE.
   unfold S7.fee_at_least in FA. apply Z.leb_le in FA. fold shape_fee in FA.
